@@ -96,6 +96,15 @@ func drawOp(c *Ctx, l *core.Lane, failing bool) *opCase {
 	if !failing && (class == 2 || class == 3 || class == 4) {
 		class = 1
 	}
+	// hash calls stand in histories and task lists next to decodes (side lane: traces of cases
+	// recorded before hash calls existed keep their meaning)
+	if x := c.L(l.Name + ":h"); x.Chance(1, 7) {
+		hc := drawHashCall(c, x)
+		o.e = harness.HashEntry(hc.fn, hc.img)
+		o.name = "image:" + hc.desc
+		c.Inc("input-class:hash")
+		return o
+	}
 	switch class {
 	case 0, 3:
 		s := Samples[l.Intn(len(Samples))]
